@@ -124,3 +124,43 @@ Theorem c11_statistics :
     st_successful st' = (st_successful st + (if p_valid r then 1 else 0))%Z.
 Proof. exact statistics_proof. Qed.
 Print Assumptions c11_statistics.
+
+(* ---- histories on one Chaperone object ------------------------------------ *)
+
+(* result and oracle calls of a fold are a function of (raw, oracles of the schema,
+   configuration, effective strategy list) only: they do not depend on the counters
+   the object carries *)
+Theorem c11_result_independent_of_counters :
+  forall (N : num) (O : oracles) (C : config) ctor arg raw st1 st2,
+    (fst (fst (fold O C ctor arg raw st1)) = fst (fst (fold O C ctor arg raw st2)) /\
+     snd (fold O C ctor arg raw st1) = snd (fold O C ctor arg raw st2)) /\
+    (fst (fst (fold_enhanced N O C ctor arg raw st1)) = fst (fst (fold_enhanced N O C ctor arg raw st2)) /\
+     snd (fold_enhanced N O C ctor arg raw st1) = snd (fold_enhanced N O C ctor arg raw st2)).
+Proof. exact fold_state_indep_proof. Qed.
+Print Assumptions c11_result_independent_of_counters.
+
+(* for every history of fold / fold_enhanced / register_co_chaperone /
+   reset_statistics calls on one object, started in any state: each call returns
+   (result and oracle calls) exactly what the same call returns on a FRESH
+   Chaperone holding the co-chaperone registrations made so far — no verdict is
+   carried from one call to the next *)
+Theorem c11_history_independent :
+  forall (N : num) (B : base) ctor ops s,
+    run_hist N B ctor s ops = run_fresh N B ctor (cs_reg s) ops.
+Proof. exact history_independent_proof. Qed.
+Print Assumptions c11_history_independent.
+
+(* and a call of a history is literally fold / fold_enhanced under the oracles of
+   its schema and the co-chaperone registered for it, from the current counters:
+   all theorems above (which hold for every O, C, st) apply to every call *)
+Theorem c11_history_step_is_fold :
+  forall (N : num) (B : base) ctor s raw sch arg,
+    let co := lookup_co (cs_reg s) sch in
+    let O := oracles_for B sch co in
+    let C := config_for B co in
+    hstep N B ctor s (HFold raw sch arg) =
+      (let '(r, st', l) := fold O C ctor arg raw (cs_stats s) in (mkCS st' (cs_reg s), OPlain r l)) /\
+    hstep N B ctor s (HFoldEnhanced raw sch arg) =
+      (let '(r, st', l) := fold_enhanced N O C ctor arg raw (cs_stats s) in (mkCS st' (cs_reg s), OEnh r l)).
+Proof. exact hstep_is_fold_proof. Qed.
+Print Assumptions c11_history_step_is_fold.
